@@ -1065,14 +1065,14 @@ def main():
         kbad = 0; kseen = set()
         for l, kr, orr in zip(k_lines, kres, ores):
             for suffix, msg in check_K(l, kr, orr):
-                kbad += 1
                 key = "restore:%s:%s" % (l.split()[1], suffix)
                 # the known phenomenon C14-SSPEN (selection on penalised fitness, reported unpenalised values) also occurs in a continued run
                 if "REPORTED unpenalized" in msg and "while the hypervolume of the penalized fitness the selection works on grew" in msg:
                     key = "steady-state:reported-hv-decreases-by-penalty"
+                if ck.match_known(key) is None: kbad += 1
                 if key in kseen: continue
                 kseen.add(key)
-                cf = ck.write_replay("K_case_%d.txt" % kbad, l + "\n")
+                cf = ck.write_replay("K_case_%d.txt" % len(kseen), l + "\n")
                 ck.violation(key, {"case_file": cf, "case": l, "uninterrupted_case": "O " + " ".join(l.split()[1:10]), "monitor": [msg],
                                    "replay_cmd": "python3 tools/c14.py --replay " + cf}, "spec monitor fails on the implementation: `%s`: %s" % (l, msg))
             gens_total += sum(1 for g in kr[2] if g != "RESTORE")
